@@ -47,10 +47,16 @@ class Scope:
         self.cols = cols
 
 
+# the reference evaluation materialises products and the proved judge compares bags quadratically: bound the
+# estimated size of every FROM clause (estimates propagate through derived tables, views and CTEs)
+PRODUCT_BOUND = 6000
+
+
 class Q:
     """a generated query"""
     def __init__(self, sql, sx, types, names, classes, ordered=False):
         self.sql, self.sx, self.types, self.names, self.classes, self.ordered = sql, sx, types, names, set(classes), ordered
+        self.est = 40   # estimated number of result rows (upper bound when the generator knows one)
 
 
 class Gen:
@@ -300,13 +306,13 @@ class Gen:
         k = r.below(10)
         if k < 2 and self.o["subqueries"] and depth >= 2:
             sub = self.select(outer, depth - 1, want=None, classes=classes, plain=r.chance(60), corr=False)
-            self._last_est = 40
+            self._last_est = max(1, sub.est)
             return "(%s) AS %s" % (sub.sql, al), "(fq %s)" % sub.sx, list(zip(sub.names, sub.types)), al
         if self.views and r.chance(30):
             name, sub = r.choice(self.views)
             classes.add("view")
             classes |= sub.classes
-            self._last_est = 40
+            self._last_est = max(1, sub.est)
             return "%s AS %s" % (name, al), "(fq %s)" % sub.sx, list(zip(sub.names, sub.types)), al
         if k < 4 and self.ctes:
             # each CTE is referenced at most once per statement in this stream: two references to one CTE
@@ -314,7 +320,7 @@ class Gen:
             name, sub = self.ctes.pop(r.below(len(self.ctes)))
             classes.add("cte")
             classes |= sub.classes
-            self._last_est = 40
+            self._last_est = max(1, sub.est)
             return "%s AS %s" % (name, al), "(fq %s)" % sub.sx, list(zip(sub.names, sub.types)), al
         ti = r.below(len(self.tables))
         name, cols, rows_ = self.tables[ti]
@@ -355,10 +361,10 @@ class Gen:
                 continue
             # the reference evaluation materialises the product before filtering: bound its size
             rsql, rsx, rcols, ral = self.from_item(outer, depth, classes)
-            if est * self._last_est > 30000:
+            if est * self._last_est > PRODUCT_BOUND:
                 # too big: use a VALUES-free fallback, the smallest base table
                 ti = min(range(len(self.tables)), key=lambda i: len(self.tables[i][2]))
-                if est * max(1, len(self.tables[ti][2])) > 30000:
+                if est * max(1, len(self.tables[ti][2])) > PRODUCT_BOUND:
                     break
                 name, tcols, rows_ = self.tables[ti]
                 ral = self.alias()
@@ -382,6 +388,7 @@ class Gen:
                 sql = "%s %s JOIN %s ON %s" % (sql, kind.upper(), rsql, on[0])
                 sx = "(join %s %s %s %s %d %d)" % (kind, sx, rsx, on[1], la, len(rcols))
             scope_cols = scope_cols + rscope
+        self._from_est = est
         return sql, sx, Scope(scope_cols)
 
     def join_cond(self, both, lcols, rcols, outer, classes):
@@ -426,6 +433,7 @@ class Gen:
         r = self.rng
         classes = classes if classes is not None else set()
         fsql, fsx, scope = self.from_clause(outer, depth, classes)
+        from_est = self._from_est
         scopes = [scope] + (outer if corr else [])
         wsql, wsx = None, "-"
         if r.chance(65):
@@ -603,9 +611,13 @@ class Gen:
             for b in blocks[1:]:
                 u = "(union 1 %s %s)" % (u, b)
             sx = "(select (fq %s) %s - - (%s) 0)" % (u, hsx, " ".join(sel_sx))
-            return Q(sql, sx, types, names, classes)
+            q = Q(sql, sx, types, names, classes)
+            q.est = from_est * len(gsets)
+            return q
         sx = "(select %s %s %s %s (%s) %d)" % (fsx, wsx, gsx, hsx, " ".join(sel_sx), 1 if distinct else 0)
-        return Q(sql, sx, types, names, classes)
+        q = Q(sql, sx, types, names, classes)
+        q.est = 1 if (grouped and not keys) else from_est
+        return q
 
     # ------------------------------------------------------------ whole statements
     def query(self, depth=None):
